@@ -681,6 +681,7 @@ spifconf_shell_expand(spif_charptr_t s)
                       cnt2 = max - j - 1;
                       j += MIN(cnt1, cnt2);
                   }
+                  FREE(EnvVar);
                   pbuff--;
               } else {
                   newbuff[j] = *pbuff;
